@@ -213,13 +213,21 @@ def parseHexBytes (s : String) : Option (List Nat) :=
 def checkFault3 (want : List Nat) (res : String) (mode k : Nat) : String :=
   match res.splitOn "/" with
   | [ns, es, hx] =>
-    match ns.toNat?, parseHexBytes hx with
-    | some n, some acc =>
+    -- accepted bytes: `x<hex>` or, when long, `y<length>:<FNV-1a hash>`
+    let accInfo : Option (Nat × Bool) :=
+      if hx.startsWith "y" then
+        match ((String.mk (hx.toList.drop 1)).splitOn ":").map String.toNat? with
+        | [some len, some h] => some (len, decide (len ≤ want.length) && (fnv64 (want.take len)).toNat == h)
+        | _ => none
+      else (parseHexBytes hx).map fun acc => (acc.length, isPrefixOf acc want)
+    match ns.toNat?, accInfo with
+    | some n, some (accLen, isPre) =>
       let err := es == "true"
-      if !isPrefixOf acc want then fail "bytes accepted by the failing writer" hx ("a prefix of " ++ hexOf want)
-      else if n ≠ acc.length then fail "byte count returned" ns (toString acc.length)
-      else if err ≠ (acc ≠ want) then fail "error returned" es (boolStr (acc ≠ want) ++ " (error iff the output was not delivered completely)")
-      else if mode ≤ 2 && acc.length ≠ min k want.length then fail "number of bytes delivered" (toString acc.length) (toString (min k want.length))
+      let complete := accLen == want.length
+      if !isPre then fail "bytes accepted by the failing writer" (String.mk (hx.toList.take 200)) ("a prefix of " ++ String.mk ((hexOf want).toList.take 200))
+      else if n ≠ accLen then fail "byte count returned" ns (toString accLen)
+      else if err ≠ (!complete) then fail "error returned" es (boolStr (!complete) ++ " (error iff the output was not delivered completely)")
+      else if mode ≤ 2 && accLen ≠ min k want.length then fail "number of bytes delivered" (toString accLen) (toString (min k want.length))
       else "ok"
     | _, _ => s!"FAIL unparsable fault result {res}"
   | _ => s!"FAIL Fprint/Fwrite to a failing writer did not return normally: {res}"
